@@ -209,10 +209,13 @@ def powm1(ctx, x, y):
     # Small y: x^y - 1 ~ log(x)*y + O(log(x)^2 * y^2)
     if magy + mag(lnx) < -ctx.prec:
         return lnx*y + (lnx*y)**2/2
-    # An integer power of a binary number is a binary number: up to a
-    # moderate size it is computed exactly, so that its difference from 1
-    # is found however many bits of x it takes to see it
-    if ctx.isint(y):
+    # TODO: accurately eval the smaller of the real/imag part
+    w = ctx.sum_accurately(lambda: iter([x**y, -1]), 1)
+    # The summation gives up, and returns 0, when the difference from 1
+    # lies too deep. x**y is not 1 here; for an integer y it is a binary
+    # number that, up to a moderate size, is computed exactly, so that
+    # the difference is found however many bits of x it takes to see it
+    if not w and ctx.isint(y):
         n = abs(int(y))
         parts = [v for v in (ctx._re(x)._mpf_, ctx._im(x)._mpf_) if v[1]]
         span = max(v[2]+v[3] for v in parts) - min(v[2] for v in parts)
@@ -226,9 +229,7 @@ def powm1(ctx, x, y):
                     w = -w/p
             finally:
                 ctx.prec = orig
-            return w
-    # TODO: accurately eval the smaller of the real/imag part
-    return ctx.sum_accurately(lambda: iter([x**y, -1]), 1)
+    return w
 
 @defun
 def _rootof1(ctx, k, n):
